@@ -7,7 +7,7 @@
  *   parse <name> <failAt>   parse_ini_file with a logging handler that refuses the failAt-th
  *                           event (0 = never):  ok|fail <events> live=<n> ## err=<first log>
  *                           events: S:<sect> | K:<key>=<val>, comma separated, `none` if empty
- *   schema <0..3>           select a built-in CfContext and zero its variables
+ *   schema <0..5>           select a built-in CfContext (4: the main section is dynamic, 5: `*` first) and zero its variables
  *   loaded <0|1>            CfContext.loaded
  *   home <hex|nil>          $HOME
  *   load <name>             cf_load_file:  ok|fail starts=<section_start log> live=<n> ## err=…
@@ -377,6 +377,26 @@ static const struct CfSect sects2[] = {
 	{ NULL },
 };
 
+static const struct CfKey keys4_fixed[] = {
+	CF_ABS("i", CF_INT, a_i[0], 0, "5"),
+	CF_ABS("s", CF_STR, a_s[3], 0, NULL),
+	{ NULL },
+};
+/* schema 4: the MAIN (first) section is dynamic */
+static const struct CfSect sects4[] = {
+	{ "main", keys_none, NULL, dyn_set, dyn_get, start_log },
+	{ "fixed", keys4_fixed },
+	{ "*", keys_none, lookup_byname, dyn_set, dyn_get, NULL },
+	{ NULL },
+};
+static const struct CfKey keys5_fixed[] = { CF_ABS("i", CF_INT, a_i[0], 0, "5"), { NULL } };
+/* schema 5: the wildcard is the first section */
+static const struct CfSect sects5[] = {
+	{ "*", keys_none, lookup_byname, dyn_set, dyn_get, start_log },
+	{ "fixed", keys5_fixed },
+	{ NULL },
+};
+
 static struct CfContext cf = { sects0, NULL, false };
 static int cur_schema;
 
@@ -398,10 +418,11 @@ static const struct Slot slots1[] = {
 	{ "r11.0", T_I, &obj11.i[0] }, { "r11.1", T_S, &obj11.s[1] },
 	{ "r12.0", T_I, &obj12.i[0] }, { "r12.1", T_S, &obj12.s[1] }, AI(41), { NULL } };
 static const struct Slot slots2[] = { AI(0), AS(3), { NULL } };
+static const struct Slot slots5[] = { AI(0), { NULL } };
 
 static const struct Slot *cur_slots(void)
 {
-	return cur_schema == 0 ? slots0 : cur_schema == 2 ? slots2 : slots1;
+	return cur_schema == 0 ? slots0 : (cur_schema == 2 || cur_schema == 4) ? slots2 : cur_schema == 5 ? slots5 : slots1;
 }
 
 static const char *dump0[][2] = {
@@ -413,6 +434,10 @@ static const char *dump1[][2] = {
 	{ "main", "i" }, { "main", "s" }, { "main", "abs" }, { "two", "s2" }, { "two", "t" }, { "two", "nr" },
 	{ "nobase", "x" }, { "a", "x" }, { "a", "y" }, { "b", "x" }, { "b", "y" }, { "c", "x" }, { "zz", "x" },
 	{ "shadowed", "q" }, { "shadowed", "x" }, { NULL, NULL } };
+static const char *dump4[][2] = {
+	{ "main", "k1" }, { "main", "k2" }, { "fixed", "i" }, { "fixed", "s" }, { "a", "k1" }, { "zz", "k1" }, { NULL, NULL } };
+static const char *dump5[][2] = {
+	{ "a", "k1" }, { "b", "k1" }, { "main", "k1" }, { "fixed", "i" }, { NULL, NULL } };
 static const char *dump2[][2] = {
 	{ "main", "i" }, { "main", "s" }, { "wo", "k1" }, { "a", "k1" }, { "a", "k2" }, { "b", "k1" },
 	{ "zz", "k1" }, { NULL, NULL } };
@@ -452,6 +477,8 @@ static bool select_schema(int id)
 	case 1: cf.sect_list = sects1; cf.base = &obj1; break;
 	case 2: cf.sect_list = sects2; cf.base = &obj1; break;
 	case 3: cf.sect_list = sects1; cf.base = NULL; break;
+	case 4: cf.sect_list = sects4; cf.base = &obj1; break;
+	case 5: cf.sect_list = sects5; cf.base = &obj1; break;
 	default: return false;
 	}
 	cur_schema = id;
@@ -596,7 +623,7 @@ int main(int argc, char **argv)
 			       not_intact ? " NOT-INTACT" : "", live, first_err ? first_err : "none");
 			free(name);
 		} else if (nw == 2 && strcmp(w[0], "schema") == 0) {
-			if (strlen(w[1]) == 1 && w[1][0] >= '0' && w[1][0] <= '3' && select_schema(w[1][0] - '0')) puts("ok");
+			if (strlen(w[1]) == 1 && w[1][0] >= '0' && w[1][0] <= '5' && select_schema(w[1][0] - '0')) puts("ok");
 			else puts("bad-op");
 		} else if (nw == 2 && strcmp(w[0], "loaded") == 0) {
 			if (strcmp(w[1], "0") == 0) { cf.loaded = false; puts("ok"); }
@@ -659,7 +686,7 @@ int main(int argc, char **argv)
 			}
 			free(s); free(k);
 		} else if (nw == 1 && strcmp(w[0], "dump") == 0) {
-			const char *(*d)[2] = cur_schema == 0 ? dump0 : cur_schema == 2 ? dump2 : dump1;
+			const char *(*d)[2] = cur_schema == 0 ? dump0 : cur_schema == 2 ? dump2 : cur_schema == 4 ? dump4 : cur_schema == 5 ? dump5 : dump1;
 			const struct Slot *sl; char buf[128]; int i, n = 0;
 			for (i = 0; d[i][0]; i++) {
 				if (i) putchar(',');
